@@ -264,7 +264,6 @@ func c22(c *report.Check) {
 	longN := 40
 	if c.Thorough() {
 		depth = 4
-		longN = 72
 	}
 	hists := c20Histories(depth)
 	nShort := len(hists)
